@@ -49,7 +49,11 @@ type caseSpec struct {
 
 var nowNano = time.Now().UnixNano()
 
-func genCase(seed int64, plugin string, caseNo int) *caseSpec {
+// mode "" = the ordinary cases; modeTransport = transport-failure cases of the
+// xhttp outputs (fleet.go), generated on top of an ordinary case.
+const modeTransport = "transport"
+
+func genCase(seed int64, plugin string, caseNo int, mode string) *caseSpec {
 	g := &gen{r: rand.New(rand.NewSource(seed))}
 	cs := &caseSpec{}
 	c := &cs.Cfg
@@ -332,6 +336,10 @@ func genCase(seed int64, plugin string, caseNo int) *caseSpec {
 		b.Shape = fmt.Sprintf("n%s|par%s|bytes%s|%s|%s", sizeBucket(n), sizeBucket(np), byteBucket(total), b.Trigger, planTag)
 		cs.Batches = append(cs.Batches, b)
 	}
+	if mode == modeTransport {
+		addTransport(cs, seed)
+		return cs
+	}
 	addGiveUp(cs, seed, caseNo, timeoutMode)
 	return cs
 }
@@ -471,6 +479,10 @@ type batchJudge struct {
 	// refused); every payload seen was built for a retry
 	resendOnly bool
 	attempts   int
+	// transport-failure cases: requests / connections the sinks cut without an
+	// answer, and the capture the first failure was found in
+	transportFails int
+	failCap        *capture
 }
 
 // alignAndCheck compares the records of one capture with exp[start:] and
@@ -555,8 +567,18 @@ func (j *batchJudge) classifyExtra(r *rec, i int) *failure {
 // onCapture judges one request/payload of the batch, in arrival order.
 func (j *batchJudge) onCapture(c *capture) {
 	j.attempts++
+	if c.Transport {
+		j.transportFails++
+	}
 	if len(j.fails) > 0 {
 		return // the first failure of a batch is the finding; what follows is its consequence
+	}
+	if c.NoRequest {
+		// the connection was cut before anything was read: the client got a
+		// transport error, the plugin's retry may start the batch over
+		j.roundOver = true
+		j.retryable++
+		return
 	}
 	recs, f := j.s.parse(c)
 	if f != nil {
@@ -633,11 +655,30 @@ func (j *batchJudge) onCapture(c *capture) {
 func (j *batchJudge) fail(f *failure, c *capture) {
 	if c != nil {
 		f.Detail += fmt.Sprintf(" | request #%d status=%d accepted=%v bytes=%d", j.attempts, c.Status, c.Accepted, len(c.Body))
+		if c.Via != "" {
+			f.Detail += " endpoint=" + c.Via
+		}
+		if c.Transport {
+			f.Detail += " (connection cut by the sink after the request was read)"
+		}
+		if c.GzipMembers > 0 {
+			f.Detail += fmt.Sprintf(" gzip-members=%d", c.GzipMembers)
+		}
+		if j.failCap == nil {
+			j.failCap = c
+		}
 		if (j.attempts > 1 && j.firstOK && j.b.Plan.FailFirst > 0) || j.resendOnly {
 			// the same batch was encoded correctly on the first attempt
 			f = &failure{Site: "resend", Fail: "payload-built-for-a-retry-violates-the-oracle", Idx: f.Idx,
 				Detail: fmt.Sprintf("[%s %s] %s", f.Site, f.Fail, f.Detail)}
 		}
+	}
+	if c != nil && c.GzipMembers > 1 {
+		// structural trigger: the request body is a concatenation of several gzip
+		// members, which every receiver decodes as the concatenation of their
+		// contents (the plugins hand one buffer per request to the client: one
+		// member). Whatever the symptom (duplicate, order, framing), it is one defect.
+		f.Trigger = "request-body-is-several-gzip-members"
 	}
 	j.fails = append(j.fails, f)
 }
@@ -743,9 +784,15 @@ func runCase(cs *caseSpec, scratch string, res *caseResult) {
 					}
 					body = sb.String()
 				}
+				if cp.NoRequest {
+					body = cp.Path
+				}
 				bodies = append(bodies, fmt.Sprintf("status=%d %s", cp.Status, core_trunc(body, 700)))
 			}
 			w["payloads"] = bodies
+			if j.failCap != nil {
+				w["failing_payload"] = fmt.Sprintf("status=%d accepted=%v endpoint=%q gzip_members=%d %s", j.failCap.Status, j.failCap.Accepted, j.failCap.Via, j.failCap.GzipMembers, core_trunc(string(j.failCap.Body), 1500))
+			}
 			res.Violations = append(res.Violations, violationOut{Signature: sig,
 				What:    fmt.Sprintf("%s: %s/%s%s — %s", c.Plugin, f.Site, f.Fail, map[bool]string{true: " (trigger " + f.Trigger + ")", false: ""}[f.Trigger != ""], core_trunc(f.Detail, 300)),
 				Witness: w})
@@ -809,6 +856,11 @@ func runCase(cs *caseSpec, scratch string, res *caseResult) {
 		maxReq := 4*len(evs) + 2*b.Plan.FailFirst + 40
 		if b.Plan.Poison != "" {
 			maxReq = (c.retry()+3)*(2*len(evs)+2) + 40 // every attempt may bisect the whole batch again
+		}
+		if c.Mult > 0 {
+			// transport-failure case: every attempt may bisect the whole batch again and the
+			// client re-sends a request up to 5 times by itself when the server hangs up
+			maxReq = (c.retry()+3)*(2*len(evs)+2)*5 + 5*b.Plan.DropFirst + 40
 		}
 		committed, storm := s.waitBatch(len(evs), maxReq, 60*time.Second)
 		if storm {
@@ -886,6 +938,16 @@ func runCase(cs *caseSpec, scratch string, res *caseResult) {
 		if gaveUp {
 			dropExcused = true
 		}
+		// an endpoint fleet: the endpoint is drawn at random per request, so all
+		// retry+2 attempts of a batch can meet a broken endpoint (likely only when a
+		// split needs many requests per attempt). Every such failure is visible at
+		// the sinks (fleets of split cases have no "closed" endpoint); a batch
+		// with that many observed failures was given up as documented.
+		fleetGaveUp := len(c.Fleet) > 0 && j.retryable >= c.retry()+2
+		if fleetGaveUp {
+			dropExcused = true
+			res.count("transport.fleet_batches_given_up_after_all_retries", 1)
+		}
 		if afterGiveUp {
 			res.count("batches_after_a_given_up_batch", 1)
 			if sinceGiveUp == 0 {
@@ -958,6 +1020,9 @@ func runCase(cs *caseSpec, scratch string, res *caseResult) {
 		if j.single413 >= 0 {
 			res.count("single_event_413", 1)
 		}
+		if c.Mult > 0 {
+			transportEvidence(res, c, b, j, caps, accepted)
+		}
 		res.count("requests_accepted", int64(accepted))
 		res.count("trigger."+b.Trigger, 1)
 		for r := range routes {
@@ -976,6 +1041,44 @@ func runCase(cs *caseSpec, scratch string, res *caseResult) {
 			}
 			res.Samples = append(res.Samples, map[string]any{"plugin": c.Plugin, "cfg": c.tag(), "batch": b.Shape,
 				"first_event": core_trunc(string(exp[0].Text), 300), "payload_head": core_trunc(body, 400), "verdict_failures": len(j.fails)})
+		}
+	}
+}
+
+// transportEvidence counts what a transport-failure case exercised.
+func transportEvidence(res *caseResult, c *pluginCfg, b *batchSpec, j *batchJudge, caps []capture, accepted int) {
+	gz := "plain"
+	if c.Gzip {
+		gz = "gzip"
+	}
+	ok := len(j.fails) == 0 && accepted > 0
+	res.count("transport.batches."+c.Plugin, 1)
+	if len(c.Fleet) > 0 {
+		res.count("transport.fleet_batches."+gz+"."+c.Plugin, 1)
+		if ok {
+			res.count("transport.fleet_batches_accepted_ok."+gz+"."+c.Plugin, 1)
+		}
+		if ok && hasKind(c.Fleet, epClosed) {
+			res.count("transport.fleet_with_refusing_port_accepted_ok."+gz, 1)
+		}
+	} else if b.Plan.DropFirst > 0 {
+		res.count("transport.drop_batches."+gz+"."+c.Plugin, 1)
+	}
+	if j.transportFails > 0 {
+		res.count("transport.connection_cuts_observed", int64(j.transportFails))
+		if ok {
+			res.count("transport.accepted_ok_after_connection_cut."+gz+"."+c.Plugin, 1)
+		}
+	}
+	for k := range caps {
+		if caps[k].Via != "" {
+			res.count("transport.requests_via."+caps[k].Via, 1)
+		}
+		if caps[k].Accepted && caps[k].GzipMembers > 0 {
+			res.count("transport.accepted_gzip_bodies", 1)
+			if caps[k].GzipMembers > 1 {
+				res.count("transport.accepted_gzip_bodies_with_several_members", 1)
+			}
 		}
 	}
 }
